@@ -87,6 +87,10 @@ def r_schema_register(P, rep, ctx, rule):
               "the JSON Schema of that class is stored under the schema's own path", fi.loc(), construct="jsonschema store", message="_register does not store schema_cls.schema_json() at _jsonschema_path_for(schema_ref)")
     rep.check("parents = schemas.parent_path(schema_ref.name, schema_ref.version)" in t and "self._raw[compat_path] = parents_dat" in t and "compat_path = f'{self._schema_path_for(schema_ref)}/compat'" in t, rule, fi.qual,
               "the parent chain of the same (name, version) is stored", fi.loc(), construct="compat store", message="_register does not store schemas.parent_path(name, version) of the same pair under <schema>/compat")
+    pd = [v for k, v in local_defs(fi).get("parents_dat", []) if v is not None]
+    whole = len(pd) == 1 and any(isinstance(x, ast.Name) and x.id == "parents" for x in ast.walk(pd[0])) and not any(isinstance(x, ast.Subscript) and isinstance(x.value, ast.Name) and x.value.id == "parents" for x in ast.walk(pd[0])) and "x.dict()" in norm(pd[0])
+    rep.check(whole, rule, fi.qual, "the persisted parent chain is the complete chain the in-memory tables receive", fi.loc(), construct=f"parents_dat = {[norm(p) for p in pd]}",
+              message=f"the persisted `compat` chain is built from {[norm(p) for p in pd]}, not from the whole `parents` list that the in-memory tables get: a reopened container reports a shorter parent chain than the plugin system")
     rep.check("self._schemas.add(schema_ref)" in t and "self._update_parents_children(schema_ref, parents)" in t, rule, fi.qual, "in-memory tables are updated", fi.loc(), construct="table update", message="_register does not update _schemas / parents / children")
     tests = [x for x in g.nodes if x.kind == "test" and "self._pkgs._providers" in norm(x.exprs[0])]
     regp = [n.idx for n in g.nodes if any(norm(c.func) == "self._pkgs._register" for c in g.calls(n.idx))]
